@@ -144,7 +144,25 @@ Definition py_formatter (unit : Q) (output_unit : option Q) : formatter :=
   mkFmt (fmt_g 0 6 ou)
         (fun tt => fmt_g 0 6 (fmul (f_of_int tt) unit))
         (py_cells scalar)
-        (fun tt => fmt_f 6 2 (fmul (f_of_int tt) unit)).
+        (fun tt => fmt_f 6 2 (fmul (f_of_int tt) unit))
+        (fun _ => true).          (* io.StringIO / a UTF-8 stream *)
+
+(* the stream's encoding.  Text is carried as UTF-8 bytes: ASCII can encode it iff every byte is
+   below 128, Latin-1 iff every code point is below 256, i.e. no lead byte above 0xC3 *)
+Inductive encoding := Utf8 | Ascii | Latin1.
+Fixpoint all_bytes_below (n : N) (s : string) : bool :=
+  match s with
+  | EmptyString => true
+  | String a t => (N_of_ascii a <? n)%N && all_bytes_below n t
+  end.
+Definition encodable_in (e : encoding) (s : string) : bool :=
+  match e with Utf8 => true | Ascii => all_bytes_below 128 s | Latin1 => all_bytes_below 196 s end.
+
+Definition with_encoding (F : formatter) (e : encoding) : formatter :=
+  mkFmt (f_unit_text F) (f_total F) (f_cells F) (f_summary F) (encodable_in e).
+
+Definition show_text_enc (e : encoding) (unit : Q) (output_unit : option Q) (E : env) (o : options) (st : stats)
+  : report := show_text (with_encoding (py_formatter unit output_unit) e) E o st.
 
 Definition show_text_py (unit : Q) (output_unit : option Q) (E : env) (o : options) (st : stats)
   : report := show_text (py_formatter unit output_unit) E o st.
